@@ -153,6 +153,19 @@ class SymArray(ExtensionArray):
     def __array__(self, dtype=None, copy=None):
         return self._d.copy()
 
+    def any(self, *a, **k):
+        """ndarray semantics: truth of each cell (NaN is true); a symbolic cell's truth is a branch"""
+        for v in self._d:
+            if (True if _isna(v) else bool(v != 0)):
+                return True
+        return False
+
+    def all(self, *a, **k):
+        for v in self._d:
+            if not (True if _isna(v) else bool(v != 0)):
+                return False
+        return True
+
     def reshape(self, *shape):
         """`series.values.reshape(-1, 1)` (sklearn idiom): leaves pandas, continues as an object ndarray of cells"""
         return self.to_numpy().reshape(*shape)
